@@ -47,6 +47,9 @@ func init() {
 			{ID: "R04u", Floor: 1, Doc: "a block that need not be put does not end the batch: from the (false, nil) answer of ShouldPut, PutMany reaches no return without going round the loop", Run: ruleR04u},
 			{ID: "R04w", Floor: 1, Doc: "an identity CID is one whose multihash code is IDENTITY, whatever its digest length: store.IsIdentity answers `Code == IDENTITY` and nothing else", Run: ruleR04w},
 			{ID: "R04x", Floor: 1, Doc: "a section exactly at the size limit is read back like any other: the limit test is `>` (= R09b)", Run: ruleR09b},
+			{ID: "R04y", Floor: 3, Doc: "a stored block is read back in full, empty blocks included: no single Read where the pinned tree has none (= R02q)", Run: ruleR02q},
+			{ID: "R04z", Floor: 2, Doc: "concurrent Roots calls do not share a cursor: each reads through its own offset reader (= R07q)", Run: ruleR07q},
+			{ID: "R04A", Floor: 2, Doc: "a key is indexed only once its section has been handed to the file: write, then index, per block (= R06a)", Run: ruleR06a},
 		},
 	})
 }
